@@ -8,6 +8,9 @@ Driver/C02.lean (region-level executable model built on the C11 region model): e
 of modifiedRegion / copyRegion / requestedRegion / copyDX,DY after every operation and of the
 rectangles of every update, plus direct oracles:
   !inv   : the convergence invariant evaluated on the implementation's state + decoded picture
+  !settled: where the observations show the server twice had nothing to send in answer to an
+           incremental whole-screen request, the whole decoded picture equals the framebuffer
+           (soft-cursor clients: with the scripted cursor at the scripted pointer); no library state
   !docopy: server framebuffer after rfbDoCopyRegion == simultaneous copy
   python : non-incremental request resends the whole requested area; idle incremental is silent.
 """
@@ -25,6 +28,101 @@ def rect_in(rng, W, H, lo=1):
     x2 = rng.randint(x1 + lo, W)
     y2 = rng.randint(y1 + lo, H)
     return x1, y1, x2, y2
+
+
+def settle(lines, c, W, H, ps, rounds=None):
+    """the client asks for everything until the server says twice that there is nothing to send"""
+    for _ in range(rounds if rounds is not None else (3 if ps == 0 else 3 + H // ps + 1)):
+        lines += ["req %d 1 0 0 %d %d" % (c, W, H), "clock 1000000", "update %d" % c, "clock 1000000", "update %d" % c]
+    lines.append("settled %d" % c)
+
+
+def gen_partial(rng):
+    """a viewer that for a while only asks for part of the screen while copies cross the boundary of
+    that part and their sources are repainted; later it asks for everything again (incrementally)"""
+    W, H = rng.choice([(16, 16), (24, 20), (32, 24), (64, 64)])
+    lines = ["screen %d %d 0 %d" % (W, H, rng.choice([0, 0, 50])),
+             "cursor 2 2 0 0", "client 0", "setenc 0 1 1",
+             "draw 0 0 %d %d 1" % (W, H), "req 0 0 0 0 %d %d" % (W, H), "update 0"]
+    settle(lines, 0, W, H, 0, 1)
+    for rnd in range(rng.randint(1, 3)):
+        horiz = rng.random() < 0.5
+        cut = rng.randint(W // 4, 3 * W // 4) if horiz else rng.randint(H // 4, 3 * H // 4)
+        first = rng.random() < 0.5          # requested part is the first / second part
+        if horiz:
+            part = (0, 0, cut, H) if first else (cut, 0, W - cut, H)
+        else:
+            part = (0, 0, W, cut) if first else (0, cut, W, H - cut)
+        px, py, pw, ph = part
+        # a little change answers the outstanding whole-screen request
+        lines += ["req 0 1 0 0 %d %d" % (W, H), "draw %d %d %d %d %d" % (px, py, px + 2, py + 2, 50 + rnd), "update 0"]
+        lines += ["req 0 1 %d %d %d %d" % part, "update 0", "state 0"]
+        for _k in range(rng.randint(1, 2)):
+            # copy a block from inside the requested part to the outside of it
+            sw, sh = rng.randint(1, max(1, pw // 2)), rng.randint(1, max(1, ph // 2))
+            sx, sy = rng.randint(px, px + pw - sw), rng.randint(py, py + ph - sh)
+            if horiz:
+                lo, hi = (cut, W - sw) if first else (0, cut - sw)
+                if hi < lo:
+                    continue
+                dxp, dyp = rng.randint(lo, hi), sy
+            else:
+                lo, hi = (cut, H - sh) if first else (0, cut - sh)
+                if hi < lo:
+                    continue
+                dxp, dyp = sx, rng.randint(lo, hi)
+            lines.append("copyrgn %d %d %d %d %d %d" % (dxp - sx, dyp - sy, dxp, dyp, dxp + sw, dyp + sh))
+            if rng.random() < 0.8:      # repaint (part of) the place the block came from
+                lines.append("draw %d %d %d %d %d" % (sx, sy, sx + rng.randint(1, sw), sy + rng.randint(1, sh), 2 + rnd))
+            for _j in range(rng.randint(1, 2)):
+                lines += ["req 0 1 %d %d %d %d" % part, "update 0", "state 0"]
+        settle(lines, 0, W, H, 0, 2)
+    return "\n".join(lines) + "\n", dict(W=W, H=H, ps=0, mr=0, nc=1, soft=[], defer=0, family="partial")
+
+
+def gen_softcopy(rng):
+    """a viewer without cursor-shape updates: pointer moves and copies whose source / destination
+    contains the place where the viewer still shows the cursor, in either order"""
+    W, H = rng.choice([(16, 16), (24, 20), (40, 23), (64, 64)])
+    cw, ch = rng.randint(1, 4), rng.randint(1, 4)
+    lines = ["screen %d %d 0 0" % (W, H), "cursor %d %d %d %d" % (cw, ch, rng.randint(0, cw - 1), rng.randint(0, ch - 1)),
+             "client 0", "setenc 0 1 0"]
+    nc = 1
+    if rng.random() < 0.4:
+        lines += ["client 1", "setenc 1 %d 1" % rng.randint(0, 1)]
+        nc = 2
+    lines += ["draw 0 0 %d %d 1" % (W, H)]
+    px, py = rng.randint(0, W - 1), rng.randint(0, H - 1)
+    lines.append("ptr %d %d" % (px, py))
+    for c in range(nc):
+        lines += ["req %d 0 0 0 %d %d" % (c, W, H), "update %d" % c]
+        settle(lines, c, W, H, 0, 1)
+    for _ in range(rng.randint(2, 4)):
+        acts = []
+        npx, npy = rng.randint(0, W - 1), rng.randint(0, H - 1)
+        acts.append("ptr %d %d" % (npx, npy))
+        # a copy whose source (or destination) contains the old / new cursor position
+        tx, ty = rng.choice([(px, py), (npx, npy)])
+        sw, sh = rng.randint(2, max(2, W // 2)), rng.randint(2, max(2, H // 2))
+        sx = min(max(0, tx - rng.randint(0, sw - 1)), W - sw)
+        sy = min(max(0, ty - rng.randint(0, sh - 1)), H - sh)
+        if rng.random() < 0.7:    # (sx,sy,sw,sh) is the source
+            dxp, dyp = rng.randint(0, W - sw), rng.randint(0, H - sh)
+            acts.append("copyrgn %d %d %d %d %d %d" % (dxp - sx, dyp - sy, dxp, dyp, dxp + sw, dyp + sh))
+        else:                     # ... is the destination
+            ox, oy = rng.randint(0, W - sw), rng.randint(0, H - sh)
+            acts.append("copyrgn %d %d %d %d %d %d" % (sx - ox, sy - oy, sx, sy, sx + sw, sy + sh))
+        if rng.random() < 0.3:
+            acts.append("draw %d %d %d %d %d" % (rect_in(rng, W, H) + (rng.randint(2, 99),)))
+        rng.shuffle(acts)
+        if rng.random() < 0.3:
+            acts.insert(rng.randint(0, len(acts)), "update 0")
+        lines += acts
+        px, py = npx, npy
+        for c in range(nc):
+            lines.append("state %d" % c)
+            settle(lines, c, W, H, 0, 2)
+    return "\n".join(lines) + "\n", dict(W=W, H=H, ps=0, mr=0, nc=nc, soft=[0], defer=0, family="softcopy")
 
 
 def gen_script(rng, nops):
@@ -94,7 +192,9 @@ def gen_script(rng, nops):
             lines.append("req %d %d %d %d %d %d" % (c, incr, x, y, w, h))
         elif r < 0.90:
             lines.append("update %d" % rng.randrange(nc))
-        elif r < 0.93:
+        elif r < 0.915:
+            settle(lines, rng.randrange(nc), W, H, ps, rng.choice([1, 2, None]))
+        elif r < 0.935:
             lines.append("clock %d" % rng.choice([1, 999, 1000, 4999, 5001, 39999, 40001, 100000, 999999, 1000000, 3000000]))
         elif r < 0.96:
             lines.append("ptr %d %d" % (rng.randint(0, W + 3), rng.randint(0, H + 3)))
@@ -107,16 +207,20 @@ def gen_script(rng, nops):
         states()
     # drain: every client asks for everything and is updated until idle
     for c in range(nc):
-        for _ in range(3 if ps == 0 else 3 + H // ps + 1):
-            lines += ["req %d 1 0 0 %d %d" % (c, W, H), "clock 1000000", "update %d" % c, "clock 1000000", "update %d" % c]
+        settle(lines, c, W, H, ps)
         lines.append("state %d" % c)
     return "\n".join(lines) + "\n", dict(W=W, H=H, ps=ps, mr=mr, nc=nc, soft=sorted(soft), defer=defer)
 
 
 def split_oracle(lines):
+    """-> (plain observations, oracle lines); oracle lines are tagged with the index of the plain
+    observation they follow, as (index, line)"""
     plain, oracle = [], []
     for l in lines:
-        (oracle if l.startswith("!") else plain).append(l)
+        if l.startswith("!"):
+            oracle.append((len(plain) - 1, l))
+        else:
+            plain.append(l)
     return plain, oracle
 
 
@@ -127,12 +231,26 @@ def parse_rects(s):
 
 def py_oracle(script, plain, oracle_lines, meta):
     """model-independent checks in the property's own words"""
-    for l in oracle_lines:
-        if "FAIL" in l or l.startswith("!wire"):
-            return l
     ops = [l for l in script.splitlines() if l]
+    settled = {}
+    for i, l in oracle_lines:
+        if l.startswith("!settled"):
+            settled[i] = l
+        elif "FAIL" in l or l.startswith("!wire"):
+            return l
     if len(ops) != len(plain):
         return "observation count %d != ops %d" % (len(plain), len(ops))
+    # `settled N` is believed only where the observations themselves show that the server twice had
+    # nothing to send in answer to an incremental request for the whole screen
+    for i, l in sorted(settled.items()):
+        c = ops[i].split()[1]
+        pat = ["req %s 1 0 0 %d %d" % (c, meta["W"], meta["H"]), "clock 1000000", "update %s" % c, "clock 1000000", "update %s" % c]
+        if i >= 5 and ops[i - 5:i] == pat and plain[i - 5] == "ok" and plain[i - 3] == "none" and plain[i - 1] == "none":
+            meta["settled_checked"] = meta.get("settled_checked", 0) + 1
+            if "FAIL" in l:
+                return "the server has nothing more to send to client %s but its picture differs from the framebuffer: %s" % (c, l)
+        else:
+            meta["settled_busy"] = meta.get("settled_busy", 0) + 1
     W, H = meta["W"], meta["H"]
     last = {}          # client -> (M, C) strings of the last state line
     pend_nonincr = {}  # client -> set of pixels requested non-incrementally directly before update
@@ -191,7 +309,8 @@ def run(ctx):
     d = ctx.driver("drv_c02")
     fails, samples = [], []
     dist = {"ops": {}, "screens": {}, "updates_with_copyrect": 0, "updates_sent": 0,
-            "multi_rect_copy_regions": 0, "inv_checks": 0, "idle_states": 0}
+            "multi_rect_copy_regions": 0, "inv_checks": 0, "idle_states": 0,
+            "settled_checked": 0, "settled_busy": 0, "families": {}}
     scripts = []
     for f in sorted(glob.glob(os.path.join(common.VERIF, "corpus", "C02", "*.ops"))):
         txt = open(f).read()
@@ -206,6 +325,9 @@ def run(ctx):
         n = 500 if ctx.tier == "quick" else 5000
         for _ in range(n):
             scripts.append(gen_script(ctx.rng, ctx.rng.choice([8, 15, 30, 60])))
+        for _ in range(n // 8):
+            scripts.append(gen_partial(ctx.rng))
+            scripts.append(gen_softcopy(ctx.rng))
 
     def one(sc):
         script, meta = sc
@@ -243,6 +365,10 @@ def run(ctx):
                 dist["multi_rect_copy_regions"] += 1
         key = "%dx%d ps=%d mr=%d" % (meta["W"], meta["H"], meta["ps"], meta["mr"])
         dist["screens"][key] = dist["screens"].get(key, 0) + 1
+        dist["settled_checked"] += meta.get("settled_checked", 0)
+        dist["settled_busy"] += meta.get("settled_busy", 0)
+        fam = meta.get("family", meta.get("corpus", "random"))
+        dist["families"][fam] = dist["families"].get(fam, 0) + 1
         nt = 0
         for l in impl:
             if l.startswith("fbu"):
@@ -262,7 +388,7 @@ def run(ctx):
         "evaluations": len(scripts), "distinct_nontrivial": len(seen),
         "rule": "random histories of draw/mark (incl. out-of-range, inverted), multi-rectangle copy regions in all directions with repeated/different offsets, incremental/non-incremental requests (incl. degenerate and out-of-range), SetEncodings toggling CopyRect, updates, for 1..3 clients, progressive slicing and maxRectsPerUpdate on/off; non-trivial = distinct script in which at least one update carried CopyRect rectangles",
         "samples": samples, "distribution": dist, "failures": fails[:6],
-        "partial": ["soft-cursor clients: region state and emitted rectangles are compared exactly, their PICTURE (cursor overlay) is C15's subject and is not compared here",
+        "partial": ["soft-cursor clients: region state, emitted rectangles and their picture (framebuffer with the scripted all-set white cursor painted at the pointer) are compared; arbitrary cursor shapes / masks are C15's subject",
                     "pointer moves change only the `extra` pixels of Step.send; the all-histories theorem (model_converges) is stated per fixed pointer position",
                     "scaled clients are covered by C17",
                     "encodings other than Raw/CopyRect: the scheduling is encoding independent (region arithmetic precedes encoding); pixel exactness per encoding is C01"],
